@@ -173,6 +173,9 @@ func (l *regexLeaf) match(segment string, params Params, header http.Header) boo
 	}
 
 	for i, bind := range l.binds {
+		if bind == "" {
+			continue // A capturing group of the user's expression, not a bind parameter.
+		}
 		params[bind] = submatches[i+1]
 	}
 	return true
@@ -307,7 +310,15 @@ func constructMatchStyleRegex(s *Segment) (*regexp.Regexp, []string, error) {
 				return nil, nil, errors.Errorf("segment has non-regex literal in position %d", e.Pos.Offset)
 			}
 
+			// The expression may have capturing groups on its own, reserve their positions
+			// with empty names to keep bind parameters aligned with sub-matches.
+			sub, err := regexp.Compile(*p.Value.Regex)
+			if err != nil {
+				return nil, nil, errors.Wrapf(err, "compile regexp near position %d", e.Pos.Offset)
+			}
+
 			binds = append(binds, p.Ident)
+			binds = append(binds, make([]string, sub.NumSubexp())...)
 			buf.WriteString("(")
 			buf.WriteString(*p.Value.Regex)
 			buf.WriteString(")")
@@ -329,6 +340,9 @@ func getParentBindSet(parent Tree) map[string]struct{} {
 	ancestor := parent
 	for ancestor != nil {
 		for _, bind := range ancestor.getBinds() {
+			if bind == "" {
+				continue // Not a bind parameter, see constructMatchStyleRegex.
+			}
 			bindSet[bind] = struct{}{}
 		}
 		ancestor = ancestor.getParent()
